@@ -28,8 +28,18 @@ struct ChunkResult {
 }
 
 /// all state values in [lo, hi) for type t (for 9 and 18 the value includes the selector bit)
-fn sweep(t: u8, lo: u32, hi: u32, seed: u64, type9_listed: bool) -> ChunkResult {
-    let mut mix = Mix::new(seed, 0x1600 + ((t as u64) << 32) + lo as u64);
+/// the one-bit fields just before the state: (first bit, count) per type
+fn flag_span(t: u8) -> (usize, usize) {
+    match t {
+        18 => (141, 7), // CS unit, display, DSC, band, message 22, assigned, RAIM
+        9 => (142, 6),  // DTE, 3 spare, assigned, RAIM
+        1..=3 => (143, 6), // manoeuvre (2), spare (3), RAIM
+        _ => (148, 1),  // RAIM
+    }
+}
+
+fn sweep(t: u8, lo: u32, hi: u32, seed: u64, type9_listed: bool, flags: Option<u64>) -> ChunkResult {
+    let mut mix = Mix::new(seed, 0x1600 + ((t as u64) << 32) + lo as u64 + (flags.unwrap_or(0x55aa) << 40));
     let mut base = mix.bytes(21);
     let mut res = ChunkResult { evals: 0, known_type9: 0, known_example: None, suspect: None };
     let with_selector = t == 9 || t == 18;
@@ -38,6 +48,10 @@ fn sweep(t: u8, lo: u32, hi: u32, seed: u64, type9_listed: bool) -> ChunkResult 
             base = mix.bytes(21);
         }
         set_bits(&mut base, 0, 6, t as u64);
+        if let Some(fl) = flags {
+            let (st, w) = flag_span(t);
+            set_bits(&mut base, st, w, fl);
+        }
         let (state, itdma) = if with_selector {
             set_bits(&mut base, 148, 20, v as u64);
             (v & 0x7ffff, (v >> 19) & 1 == 1)
@@ -83,14 +97,30 @@ pub fn run(ctx: &mut Ctx) {
     for &t in RADIO_TYPES.iter() {
         let total: u32 = if t == 9 || t == 18 { 1 << 20 } else { 1 << 19 };
         let chunk = 1u32 << 16;
-        let mut lo = 0;
-        while lo < total {
-            jobs.push((t, lo, lo + chunk));
-            lo += chunk;
+        // the state must not depend on the flags in front of it: once with those bits random, then with
+        // each single flag set / cleared against the others (quick), or every combination (thorough)
+        let (_, w) = flag_span(t);
+        let mut flag_sets: Vec<Option<u64>> = vec![None];
+        if ctx.tier == Tier::Thorough {
+            flag_sets.extend((0..(1u64 << w)).map(Some));
+        } else {
+            flag_sets.push(Some(0));
+            flag_sets.push(Some((1 << w) - 1));
+            if t == 18 {
+                flag_sets.push(Some(1 << 6)); // CS unit alone
+                flag_sets.push(Some(((1 << w) - 1) ^ (1 << 6)));
+            }
+        }
+        for fl in flag_sets {
+            let mut lo = 0;
+            while lo < total {
+                jobs.push((t, lo, lo + chunk, fl));
+                lo += chunk;
+            }
         }
     }
     let seed = ctx.seed;
-    let results = crate::util::par_map(jobs, move |(t, lo, hi)| (t, sweep(t, lo, hi, seed, type9_listed)));
+    let results = crate::util::par_map(jobs, move |(t, lo, hi, fl)| (t, sweep(t, lo, hi, seed, type9_listed, fl)));
     let sub = "all-states";
     let mut total = 0u64;
     for (t, r) in results {
@@ -124,7 +154,7 @@ pub fn run(ctx: &mut Ctx) {
     ctx.evals += total;
     *ctx.per_config.entry("std".into()).or_default() += total;
     ctx.nontrivial_by_construction += total;
-    ctx.mark_exhaustive(sub, "2^19 states x types {1,2,3,4,11} + 2^20 (selector, state) x types {9,18} = 4,718,592 decodes");
+    ctx.mark_exhaustive(sub, "2^19 states x types {1,2,3,4,11} + 2^20 (selector, state) x types {9,18}, each once with the other 148 bits random and again with the one-bit flags in front of the state forced (quick: all clear, all set, and for type 18 the CS-unit flag alone / alone clear; thorough: every combination of those flags)");
     ctx.samples.push(json!({"sub": sub, "what": "typed exhaustive sweep", "states_decoded": total}));
 
     let n = ctx.tier.pick(120_000, 600_000);
@@ -133,4 +163,21 @@ pub fn run(ctx: &mut Ctx) {
         ctx.run_proptest("random-assignments", cfg, n / 2, payload_inputs(RADIO_TYPES.to_vec(), LenMode::Standard, Prop::C16, 8, 0.1), check);
     }
     let _ = Tier::Quick;
+    // every pair of fields at their special values (see gen::payload::pairwise_specials)
+    {
+        let mut mix = crate::util::Mix::new(ctx.seed, 0xa11);
+        let reps = ctx.tier.pick(1, 6);
+        for (t, len, part) in crate::gen::payload::pairwise_shapes() {
+            if !RADIO_TYPES.contains(&t) { continue; }
+            crate::gen::payload::pairwise_specials(t, len, part, reps, &mut mix, |b| {
+                ctx.sweep_case("pairwise-special-values", &crate::adapter::STD, &Input::Payload { bytes: b }, check);
+            });
+        }
+        ctx.mark_exhaustive("pairwise-special-values", "every pair of fields of every layout (longest specified shape, and the shortest for the variable ones) x each field's special values (0, 1, max, max-1, 'not available' codes, MMSI station classes; all values of fields up to 3 bits), other bits random");
+    }
+    // decoding after an arbitrary history, in an unfragmented sentence or in a closing line without a group
+    {
+        let n_after = ctx.tier.pick(24_000, 300_000);
+        ctx.run_proptest("after-history", &crate::adapter::STD, n_after, crate::gen::payload::payload_inputs_after(RADIO_TYPES.to_vec(), Prop::C16), check);
+    }
 }
